@@ -2,7 +2,7 @@
 (* XSLT 1.0 instruction semantics as an executable big-step definition.                          *)
 (*   Transform(ss, F) = the result tree (a normalised sequence of result items) of applying       *)
 (*   stylesheet ss to document 1 of forest F.                                                      *)
-(* Stylesheet:  [templates, gvars, keys, strip, mods, docs]                                        *)
+(* Stylesheet:  [templates, gvars, keys, strip, mods, docs, attrsets]                              *)
 (*   docs: <<[uri, idx]>> - the documents document() can load: F[idx] is the document named uri    *)
 (*   template: [rid, hasMatch, match, name, mode, hasPrio, prio, params, body, mod]                *)
 (*   mods: the import tree as a sequence of [id, imports (ids, in xsl:import order)]; mods[1] is   *)
@@ -80,6 +80,7 @@ NoRule == -1          \* the current template rule is null (inside xsl:for-each,
 Bind(vars, name, val) == [x \in (DOMAIN vars) \cup {name} |-> IF x = name THEN val ELSE vars[x]]
 
 RECURSIVE InstSeq(_, _, _), Inst(_, _), BindingValue(_, _), ApplyTo(_, _, _, _), RunTemplate(_, _, _, _, _, _), Instantiate(_, _, _, _, _, _),
+          SetItems(_, _), SetsItems(_, _, _), SetDefsItems(_, _, _), SetAttrs(_, _, _),
           BindParams(_, _, _, _), WithParams(_, _, _, _), ForEachNode(_, _, _, _), Avt(_, _, _)
 
 (* value of an xsl:variable / xsl:param / xsl:with-param binding in context c *)
@@ -97,6 +98,29 @@ Avt(parts, j, c) ==
        ELSE LET v == Eval(parts[j].e, c) IN
             IF Bad(v) THEN [bad |-> v.t, s |-> <<>>]
             ELSE [rest EXCEPT !.s = ToStr(c.f, v) \o rest.s]
+
+(* ---- attribute sets (7.1.4) -------------------------------------------------------------------- *)
+(* ss.attrsets: <<[name, uses (names), attrs (<<[name (AVT parts), body]>>), mod]>>.  Using a set adds, in this order, the       *)
+(* attributes of the sets IT uses and then its own; several definitions of one name are merged, a definition of higher import    *)
+(* precedence overriding one of lower precedence (they are instantiated lowest precedence first: a later attribute of the same   *)
+(* name replaces an earlier one, MkElem).  The xsl:attribute templates see the current node of the element that uses the set      *)
+(* and the top-level variables only.                                                                                              *)
+UsesOf(x) == IF "uses" \in DOMAIN x THEN x.uses ELSE <<>>
+SetDefs(name, c) ==
+  LET as == c.ss.attrsets
+      idx == SelectSeq([j \in 1..Len(as) |-> j], LAMBDA j : as[j].name = name) IN
+  SortSeq(idx, LAMBDA a, b : c.modprec[as[a].mod] < c.modprec[as[b].mod] \/ (c.modprec[as[a].mod] = c.modprec[as[b].mod] /\ a < b))
+SetAttrs(attrs, j, c) ==
+  IF j > Len(attrs) THEN <<>>
+  ELSE Inst([i |-> "attribute", name |-> attrs[j].name, body |-> attrs[j].body], c) \o SetAttrs(attrs, j + 1, c)
+SetDefsItems(defs, j, c) ==
+  IF j > Len(defs) THEN <<>>
+  ELSE LET df == c.ss.attrsets[defs[j]] IN
+       SetsItems(df.uses, 1, c) \o SetAttrs(df.attrs, 1, c) \o SetDefsItems(defs, j + 1, c)
+SetItems(name, c) ==
+  LET defs == SetDefs(name, c) IN
+  IF Len(defs) = 0 THEN BadItem("err") ELSE SetDefsItems(defs, 1, [c EXCEPT !.vars = c.gv])
+SetsItems(names, j, c) == IF j > Len(names) THEN <<>> ELSE SetItems(names[j], c) \o SetsItems(names, j + 1, c)
 
 WithParams(ps, j, c, acc) ==
   IF j > Len(ps) THEN acc ELSE WithParams(ps, j + 1, c, Bind(acc, ps[j].name, BindingValue(ps[j], c)))
@@ -163,10 +187,10 @@ Inst(x, c) ==
          LET as == [j \in 1..Len(x.attrs) |-> Avt(x.attrs[j].avt, 1, c)]
              lit == [j \in 1..Len(x.attrs) |-> [k |-> "attr", name |-> x.attrs[j].name, v |-> as[j].s]] IN
          IF \E j \in 1..Len(as) : as[j].bad # "" THEN BadItem(IF \E j \in 1..Len(as) : as[j].bad = "err" THEN "err" ELSE "unm")
-         ELSE MkElem(x.name, lit \o InstSeq(x.body, 1, c))
+         ELSE MkElem(x.name, SetsItems(UsesOf(x), 1, c) \o lit \o InstSeq(x.body, 1, c))
     [] x.i = "element" ->
          LET nm == Avt(x.name, 1, c) IN
-         IF nm.bad # "" THEN BadItem(nm.bad) ELSE MkElem(nm.s, InstSeq(x.body, 1, c))
+         IF nm.bad # "" THEN BadItem(nm.bad) ELSE MkElem(nm.s, SetsItems(UsesOf(x), 1, c) \o InstSeq(x.body, 1, c))
     [] x.i = "attribute" ->
          LET nm == Avt(x.name, 1, c)
              items == InstSeq(x.body, 1, c) IN
@@ -209,7 +233,7 @@ Inst(x, c) ==
               Instantiate(rid, c.cur, c.pos, c.size, [mode |-> c.mode, passed |-> <<>>], c)
     [] x.i = "copy" ->
          LET kind == KindOf(c.f, c.n) IN
-         CASE kind = "elem" -> MkElem(QNameOf(c.f, c.n), InstSeq(x.body, 1, c))
+         CASE kind = "elem" -> MkElem(QNameOf(c.f, c.n), SetsItems(UsesOf(x), 1, c) \o InstSeq(x.body, 1, c))      \* 7.5: use-attribute-sets only when copying an element
            [] kind = "root" -> InstSeq(x.body, 1, c)
            [] kind = "text" -> TextItem(StringValue(c.f, c.n))
            [] kind = "attr" -> <<[k |-> "attr", name |-> QNameOf(c.f, c.n), v |-> StringValue(c.f, c.n)]>>
